@@ -53,6 +53,24 @@ const RESERVED: &[&str] = &[
 /// If you create a class from these, JS will error. So we throw an error if that happens.
 const RESERVED_TYPES: &[&str] = &["Infinity", "NaN"];
 
+/// Words that are fine as method/property names but cannot be bound as
+/// identifiers in module (strict mode) code.
+const STRICT_RESERVED_BINDINGS: &[&str] = &[
+    "arguments",
+    "await",
+    "enum",
+    "eval",
+    "implements",
+    "interface",
+    "let",
+    "package",
+    "private",
+    "protected",
+    "public",
+    "static",
+    "yield",
+];
+
 /// Helper class for us to format JS identifiers from the HIR.
 pub(crate) struct JSFormatter<'tcx> {
     /// Per [`CFormatter`]'s documentation we use it for support.
@@ -291,6 +309,17 @@ impl<'tcx> JSFormatter<'tcx> {
 
     pub fn fmt_param_name<'a>(&self, param_name: &'a str) -> Cow<'a, str> {
         param_name.to_lower_camel_case().into()
+    }
+
+    /// Like [`Self::fmt_param_name`], for names that become bindings (method parameters):
+    /// reserved words cannot be used there, so they get the same `_` suffix as method names.
+    pub fn fmt_param_binding_name<'a>(&self, param_name: &'a str) -> Cow<'a, str> {
+        let name = param_name.to_lower_camel_case();
+        if RESERVED.contains(&&*name) || STRICT_RESERVED_BINDINGS.contains(&&*name) {
+            format!("{name}_").into()
+        } else {
+            name.into()
+        }
     }
 
     pub fn fmt_lifetime_edge_array(
